@@ -106,8 +106,8 @@ class LazyTable(torch.nn.Module):
 	def forward(self, x):
 		if self._table is None or self._table.shape[-1] != x.shape[-1] or \
 				self._table.dtype != x.dtype:
-			self._table = (torch.arange(x.shape[-1], dtype=x.dtype) * 0.01).sin()
-		return x + self._table
+			self._table = 1.0 + 0.1 * (torch.arange(x.shape[-1], dtype=x.dtype) * 0.3).sin()
+		return x * self._table        # autograd has to save the cached tensor
 
 
 class CustomAct(torch.nn.Module):
